@@ -1,8 +1,17 @@
-"""Documents generated from src/xml/mjcf.schema (C37 schema oracle).
+"""Documents generated from src/xml/mjcf.schema AND doc/XMLreference.rst (C37 schema oracle).
 
 The schema language is parsed by the tree's own doc/generate/mjcf_schema.py (imported by path); everything below is an
 independent reading of the *documented* semantics of that language (syntax reference at the top of mjcf.schema and the
-module docstring of mjcf_schema.py):
+module docstring of mjcf_schema.py).  The schema file alone is NOT the reference: XMLreference.rst documents every attribute
+with a type and a required/optional status (vf/gen/mjcf_docref.py), and where the two sources differ the schema file has turned
+out to be the laxer one (audit B7).  A document is therefore called
+
+* conforming        only if BOTH sources accept it  (mode "any": a rejection by either source disqualifies the document), and
+* violating rule R  only if BOTH sources reject it for R (mode "both"); a numeric range counts only where the attribute's
+                    XMLreference paragraph states the range (the `min=`/`max=`/`positive` facets alone are not a promise).
+
+`required` is the union of the two sources for generation (either says required -> the attribute is always supplied) and
+the intersection for labelling a missing-required violation.
 
 * SchemaModel(repo)      per element kind: attributes (type / arity / enum keywords / required / nodefault / range
                          facets), child cardinalities, presence constraints, variant groups, default-context projections
@@ -40,7 +49,12 @@ def _load_parser(repo):
 
 
 class AInfo:
-    __slots__ = ("name", "type", "target", "lo", "hi", "required", "nodefault", "facets", "default", "keywords")
+    __slots__ = ("name", "type", "target", "lo", "hi", "required", "nodefault", "facets", "default", "keywords",
+                 "doc", "req_schema", "req_both", "range_stated")
+    # required   : union (schema file OR XMLreference says required)          -> what a conforming document must supply
+    # req_schema : the schema file's flag                                      (the only source in <default> context)
+    # req_both   : intersection (XMLreference silent counts as agreeing)       -> what a missing-required label needs
+    # doc        : mjcf_docref.DocAttr or None;  range_stated: XMLreference states the numeric range of the facet
 
     def __repr__(self):
         return "A(%s:%s[%s..%s]%s)" % (self.name, self.type, self.lo, self.hi, " req" if self.required else "")
@@ -68,7 +82,8 @@ class SchemaModel:
                 ai.lo = a.arity.lo
                 hi = a.arity.hi
                 ai.hi = dims[hi] if isinstance(hi, str) else hi
-                ai.required = bool(a.facets.get("required"))
+                ai.required = ai.req_schema = ai.req_both = bool(a.facets.get("required"))
+                ai.doc, ai.range_stated = None, False
                 ai.nodefault = bool(a.facets.get("nodefault"))
                 ai.facets = dict(a.facets)
                 ai.default = a.default
@@ -96,6 +111,66 @@ class SchemaModel:
         self.all_tags = sorted({e.tag for e in self.el.values()})
         self.all_attr_names = sorted({a for e in self.el.values() for a in e.attrs})
         self.kinds = self._reach()
+        self._merge_doc(repo)
+        self.wrapped = self._wrapped_kinds()
+
+    # ---- the documented language (XMLreference.rst) ------------------------------------------------------------------
+    def doc_label(self, decl):
+        """XMLreference anchor of the element kind: '<parent tag>-<tag>' or the bare tag"""
+        path = self.kinds.get((decl, "normal"))
+        if not path:
+            return None
+        tags = [t for _, _, t in path]
+        par = tags[-2] if len(tags) > 1 else None
+        if par == "worldbody":
+            par = "body"
+        for c in ("%s-%s" % (par, tags[-1]), tags[-1]):
+            if self.docref.get(c):
+                return c
+        return None
+
+    def _merge_doc(self, repo):
+        from . import mjcf_docref
+        self.docref = mjcf_docref.parse(repo)
+        self.doc_disagreements = []          # (element label, attribute, what) : reported once in the evidence, outside C37
+        for decl, ei in self.el.items():
+            lab = self.doc_label(decl)
+            if not lab:
+                continue
+            for n, a in ei.attrs.items():
+                d = self.docref[lab].get(n)
+                if d is None or d.base is None:
+                    continue
+                a.doc = d
+                known = d.status_known
+                a.required = a.req_schema or d.required
+                a.req_both = a.req_schema and (d.required or not known)
+                if a.required != a.req_both:
+                    self.doc_disagreements.append((lab, n, "required: schema=%s XMLreference=%s" % (a.req_schema, d.required)))
+                st = mjcf_docref.stated_range(d)
+                f = a.facets
+                a.range_stated = bool((f.get("positive") and "positive" in st) or
+                                      ("min" in f and f["min"] == 0 and ("min0" in st)) or
+                                      ("min" in f and f["min"] == 0 and "positive" in st))
+                t = self._type_disagreement(a)
+                if t:
+                    self.doc_disagreements.append((lab, n, t))
+
+    def _type_disagreement(self, a):
+        d = a.doc
+        sb = {"double": "real", "float": "real", "int": "int", "bool": "enum", "enum": "enum", "flags": "enum"}.get(a.type, "string")
+        if d.base != sb:
+            return "type: schema=%s XMLreference=%s" % (a.type, d.raw.split(",")[0])
+        if d.base in ("int", "real") and d.n is not None and a.hi != d.n:
+            return "arity: schema=[%s..%s] XMLreference=(%s)" % (a.lo, a.hi, d.n)
+        if d.base == "enum" and a.keywords is not None and set(d.keywords) != set(a.keywords):
+            return "keywords: schema-only=%s XMLreference-only=%s" % (sorted(set(a.keywords) - set(d.keywords)), sorted(set(d.keywords) - set(a.keywords)))
+        return None
+
+    def is_required(self, a, ctx, mode="any"):
+        if ctx == "default":
+            return a.req_schema            # XMLreference documents <default> children by reference only
+        return a.required if mode == "any" else a.req_both
 
     # ---- context-dependent views -----------------------------------------------------------------------------------
     def attrs(self, decl, ctx):
@@ -113,10 +188,18 @@ class SchemaModel:
         names = self.attrs(decl, ctx)
         return [[n for n in v if n in names] for v in self.el[decl].variants]
 
-    def children(self, decl, ctx):
-        """-> list of (child decl, card, tag, child ctx)"""
+    def children(self, decl, ctx, surface="validator"):
+        """-> list of (child decl, card, tag, child ctx).
+        surface='validator' : what the documented validator admits -- for the three body aliases that is the FULL body
+                              surface (mjcf.schema: "The runtime validator admits the full body surface for all three
+                              aliases (mjXSchema::NameMatch); the reader enforces the restrictions"), so a body-row child
+                              of worldbody/frame/replicate is never labelled an unknown element;
+        surface='compilable': the alias's own child list ("the compilable surface"), used to build documents."""
         out = []
-        for cname, card in self.el[decl].children:
+        src = decl
+        if surface == "validator" and self.el[decl].alias:
+            src = self.el[decl].alias
+        for cname, card in self.el[src].children:
             if decl == "mujoco" and cname == "body":
                 out.append(("worldbody", "*", "worldbody", "normal"))        # alias: level-1 tag of the body row
                 continue
@@ -135,20 +218,90 @@ class SchemaModel:
         queue = [start]
         while queue:
             k = queue.pop(0)
-            for cd, card, tag, cctx in self.children(*k):
+            for cd, card, tag, cctx in self.children(*k, surface="compilable"):
                 ck = (cd, cctx)
                 if ck not in paths:
                     paths[ck] = paths[k] + [(cd, cctx, tag)]
                     queue.append(ck)
         return paths
 
+    # ---- body-level element kinds hosted inside <frame> / <replicate> ------------------------------------------------
+    WRAP_CHAINS = (("frame",), ("replicate",), ("frame", "replicate"), ("replicate", "frame"), ("frame", "frame"),
+                   ("replicate", "replicate"))
+
+    def _wrapped_kinds(self):
+        """every element kind of the kinematic tree, hosted below a chain of <frame>/<replicate> meta-elements, in two forms:
+        'direct'  worldbody/[body/]W.../X      the element sits directly in the meta-element
+        'inbody'  worldbody/W.../body/X        the element sits in an ordinary <body> that is nested in the meta-element
+        -> {(decl, ctx, 'chain:form'): path}.  The alias child lists of mjcf.schema (the 'compilable surface') decide which
+        direct hosts exist (e.g. no flexcomp directly in replicate)."""
+        out = {}
+        body = ("body", "normal", "body")
+        for (decl, ctx), path in self.kinds.items():
+            tags = [t for _, _, t in path]
+            if len(path) < 3 or tags[1] != "worldbody" or ctx != "normal":
+                continue
+            tail = list(path[2:])
+            needs_body = tail[0][0] == "body" and len(tail) > 1
+            inner = tail[1:] if needs_body else tail
+            for chain in self.WRAP_CHAINS:
+                w = [(c, "normal", c) for c in chain]
+                ok = inner[0][0] in {cd for cd, _, _, _ in self.children(chain[-1], "normal", surface="compilable")}
+                if ok:
+                    out[(decl, ctx, "+".join(chain) + ":direct")] = list(path[:2]) + ([body] if needs_body else []) + w + inner
+                out[(decl, ctx, "+".join(chain) + ":inbody")] = list(path[:2]) + w + [body] + inner
+        return out
+
     @staticmethod
-    def kind_name(decl, ctx):
-        return ("default/" if ctx == "default" else "") + decl
+    def kind_name(decl, ctx, wrap=None):
+        return (wrap + ">" if wrap else "") + ("default/" if ctx == "default" else "") + decl
 
     # ---- reference validator ---------------------------------------------------------------------------------------
-    def check_value(self, a, v):
-        """-> None or rule kind broken by value text v for attribute a"""
+    def check_value(self, a, v, mode="any"):
+        """-> None or the rule kind broken by value text v of attribute a.
+        mode 'any' : broken as soon as ONE source (schema file, XMLreference) rejects the value  (conformance test)
+        mode 'both': broken only if BOTH sources reject it, for the same rule kind            (violation labelling)"""
+        rs = self._check_schema(a, v)
+        if rs == "range" and mode == "both" and not a.range_stated:
+            rs = None                   # a min=/max=/positive facet that XMLreference does not state is not a promise
+        if a.doc is None:
+            return rs
+        rd = self._check_doc(a, v)
+        if mode == "any":
+            return rs or rd
+        if rs and rd:
+            return rs if rs == rd or rs == "range" else None
+        if rs == "range" and a.range_stated:
+            return rs
+        return None
+
+    def _check_doc(self, a, v):
+        """value text v against the type XMLreference documents for the attribute"""
+        d = a.doc
+        if d.base in ("int", "real"):
+            toks = v.split()
+            rx = _INT_RE if d.base == "int" else _FLOAT_RE
+            if any(not rx.match(t) for t in toks):
+                return "non-numeric"
+            if d.n is not None:
+                if a.type in NUMERIC and a.hi == d.n:
+                    lo, hi = a.lo, d.n          # "(N)" with a schema range [lo..N]: shorter arrays are 'specified otherwise' in the text
+                else:
+                    lo = hi = d.n
+                if len(toks) > hi:
+                    return "too-many"
+                if len(toks) < lo:
+                    return "too-few"
+            return None
+        if d.base == "enum":
+            toks = v.split() if a.type == "flags" else [v]
+            if any(t not in d.keywords for t in toks) or len(set(toks)) != len(toks):
+                return "bad-keyword"
+            return None
+        return None                      # string: "An arbitrary string"
+
+    def _check_schema(self, a, v):
+        """value text v against the schema file's declaration"""
         if a.type in NUMERIC:
             toks = v.split()
             rx = _INT_RE if a.type == "int" else _FLOAT_RE
@@ -186,7 +339,7 @@ class SchemaModel:
             return None
         return None
 
-    def check_element(self, node, decl, ctx):
+    def check_element(self, node, decl, ctx, mode="any"):
         """violations local to one element (attributes, constraints, direct children) -> list of (rule, detail)"""
         out = []
         attrs = self.attrs(decl, ctx)
@@ -194,11 +347,11 @@ class SchemaModel:
             if n not in attrs:
                 out.append(("unknown-attribute", n))
                 continue
-            r = self.check_value(attrs[n], v)
+            r = self.check_value(attrs[n], v, mode)
             if r:
                 out.append((r, n))
         for n, a in attrs.items():
-            if a.required and n not in node.attrib:
+            if self.is_required(a, ctx, mode) and n not in node.attrib:
                 out.append(("missing-required", n))
         present = set(node.attrib)
         for kind, bundles in self.cons(decl, ctx):
@@ -229,14 +382,14 @@ class SchemaModel:
                 out.append(("repeated-child", tag))
         return out
 
-    def validate(self, root):
-        """whole-document reference validation -> list of (rule, kind name, detail)"""
+    def validate(self, root, mode="any"):
+        """whole-document reference validation -> list of (rule, kind name, detail); see check_value for the modes"""
         out = []
         if root.tag != "mujoco":
             return [("unknown-element", "", root.tag)]
 
         def rec(node, decl, ctx):
-            for r, d in self.check_element(node, decl, ctx):
+            for r, d in self.check_element(node, decl, ctx, mode):
                 out.append((r, self.kind_name(decl, ctx), d))
             bytag = {tag: (cd, cctx) for cd, card, tag, cctx in self.children(decl, ctx)}
             for ch in node:
@@ -302,7 +455,7 @@ HINTS = {
 }
 # extra attributes/children that make a freshly created element of this kind compilable
 EXTRA_ATTR = {
-    "geom": {"size": "0.1"}, "inertial": {"diaginertia": "1 1 1"}, "numeric": {"data": "1 2"},
+    "geom": {"size": "0.1"}, "inertial": {"diaginertia": "1 1 1"}, "numeric": {"data": "1"},
     "spatial": {}, "texture": {"builtin": "flat", "width": "4", "height": "4", "type": "2d"},
     "hfield": {"nrow": "2", "ncol": "2"}, "mesh": {"vertex": "0 0 0 1 0 0 0 1 0 0 0 1"},
     "fixed_joint": {"coef": "1"}, "flexcomp": {"type": "grid", "count": "2 2 1", "spacing": ".1 .1 .1", "dim": "2"},
@@ -317,9 +470,18 @@ EXTRA_CHILD = {
     "tuple": [],
     "composite": ['<geom size=".01"/>'],
 }
-# second-chance hosts: attributes that the hand-written reader insists on although the schema does not mark them required
-# (each of these disagreements is reported by the check on the first-chance host; the enriched host only restores coverage
-# of the other rules for the element kind)
+# values for attributes that XMLreference (not the schema file) calls required: semantically valid for the prelude / EXTRA_ATTR hosts
+REQUIRED_HINT = {
+    "pin": {"id": "0", "range": "0 1", "grid": "0 0", "gridrange": "0 0 1 1"},
+    "bone": {"bindpos": "0 0 0", "bindquat": "1 0 0 0", "vertid": "0", "vertweight": "1"},
+    "pulley": {"divisor": "2"}, "user": {"dim": "1"}, "layer": {"texture": "tex1"},
+    "extension_plugin": {"plugin": "mujoco.elasticity.cable"},
+    "adhesion": {"body": "b1"}, "pair": {"geom1": "g1", "geom2": "g3"}, "fixed_joint": {"coef": "1"},
+    "composite": {"count": "3 1 1"},
+}
+# second-chance hosts: attributes that the hand-written reader / compiler insists on although neither the schema file nor
+# XMLreference marks them required (a schema-class rejection of the first-chance host is reported by the check; the enriched
+# host only restores coverage of the other rules for the element kind)
 ENRICH = {
     "attach": {"body": "b3"}, "dcmotor": {"motorconst": "0.1", "resistance": "1", "joint": "j1"},
     "extension_plugin": {"plugin": "mujoco.elasticity.cable"},
@@ -348,8 +510,9 @@ class DocGen:
     def numbers(self, a, n):
         rng = self.rng
         vals = []
+        as_int = a.type == "int" or (a.doc is not None and a.doc.base == "int")      # integers satisfy int and real alike
         for _ in range(n):
-            if a.type == "int":
+            if as_int:
                 x = int(rng.integers(1, 4))
                 if "max" in a.facets:
                     x = min(x, int(a.facets["max"]))
@@ -359,9 +522,15 @@ class DocGen:
         return " ".join(vals)
 
     def count_for(self, a, how):
-        """how: 'min' | 'max' | 'any' -> a conforming token count"""
+        """how: 'min' | 'max' | 'any' -> a token count that the schema file AND XMLreference accept (None: there is none)"""
         lo = max(a.lo, 1)
         hi = a.hi if a.hi is not None else lo + 3
+        d = a.doc
+        if d is not None and d.base in ("int", "real") and d.n is not None and a.hi != d.n:
+            # the documented length differs from the schema's upper bound: only the documented length satisfies both
+            if d.n < lo or (a.hi is not None and d.n > a.hi):
+                return None
+            return d.n
         if how == "min":
             return lo
         if how == "max":
@@ -369,20 +538,40 @@ class DocGen:
         return int(self.rng.integers(lo, hi + 1))
 
     def valid_value(self, decl, a, how="any", avoid=None):
+        """a value that conforms to the schema file AND to the type XMLreference documents (None when the two leave no
+        common value); the result is re-checked against both sources"""
+        v = self._valid_value(decl, a, how, avoid)
+        if v is not None and self.M.check_value(a, v, "any") is not None:
+            hint = HINTS.get((decl, a.name))
+            v = hint if hint is not None and self.M.check_value(a, hint, "any") is None else None
+        return v
+
+    def _valid_value(self, decl, a, how="any", avoid=None):
         rng = self.rng
         hint = HINTS.get((decl, a.name))
         if hint is not None and how == "any" and avoid is None and rng.random() < 0.85:
             return hint
+        d = a.doc
         if a.type in NUMERIC:
-            return self.numbers(a, self.count_for(a, how))
+            n = self.count_for(a, how)
+            return None if n is None else self.numbers(a, n)
+        kws = a.keywords
+        if kws is not None and d is not None and d.base == "enum":
+            kws = [k for k in kws if k in d.keywords]         # keywords that only one source lists are not 'conforming'
+            if not kws:
+                return None
         if a.type == "bool":
             return ["true", "false"][int(rng.integers(2))]
         if a.type == "enum":
-            ks = [k for k in a.keywords if k != avoid] or a.keywords
+            ks = [k for k in kws if k != avoid] or kws
             return ks[int(rng.integers(len(ks)))]
         if a.type == "flags":
-            k = int(rng.integers(1, len(a.keywords) + 1))
-            return " ".join(rng.permutation(a.keywords)[:k])
+            k = int(rng.integers(1, len(kws) + 1))
+            return " ".join(rng.permutation(kws)[:k])
+        if d is not None and a.type == "string" and d.base == "enum":
+            return d.keywords[int(rng.integers(len(d.keywords)))]
+        if d is not None and a.type == "string" and d.base in ("int", "real"):
+            return " ".join(["1"] * (d.n or 1))               # numeric text: a string for the schema file, a number for XMLreference
         if a.type == "ref":
             return REFS.get(a.target, "vf_noref")
         if a.type == "id":
@@ -402,14 +591,22 @@ class DocGen:
         return "vfs"
 
     def invalid_value(self, decl, a, rule):
-        """value text that breaks exactly `rule` for attribute a, or None if the rule does not apply to a"""
+        """value text that breaks exactly `rule` for attribute a under BOTH sources, or None if the rule does not apply to a
+        (or only one of the schema file / XMLreference rejects the value)"""
+        v = self._invalid_value(decl, a, rule)
+        if v is not None and self.M.check_value(a, v, "both") != rule:
+            return None
+        return v
+
+    def _invalid_value(self, decl, a, rule):
         rng = self.rng
         if rule == "bad-keyword":
             if a.type == "bool":
                 return ["maybe", "True", "1", "yes"][int(rng.integers(4))]
             if a.type == "enum":
                 pool = ["vfbad", a.keywords[0] + "x", a.keywords[-1].upper() + "_"]
-                others = [k for ks in self.M.enums.values() for k in ks if k not in a.keywords]
+                dk = a.doc.keywords if a.doc is not None and a.doc.keywords else []
+                others = [k for ks in self.M.enums.values() for k in ks if k not in a.keywords and k not in dk]
                 if others:
                     pool.append(others[int(rng.integers(len(others)))])
                 return pool[int(rng.integers(len(pool)))]
@@ -467,9 +664,15 @@ class DocGen:
         M = self.M
         node = ET.Element(tag or M.el[decl].tag)
         attrs = M.attrs(decl, ctx)
+        if ctx != "default":
+            for n, v in REQUIRED_HINT.get(decl, {}).items():
+                if n in attrs and M.is_required(attrs[n], ctx):
+                    node.set(n, v)
         for n, a in attrs.items():
-            if a.required:
-                node.set(n, self.valid_value(decl, a))
+            if M.is_required(a, ctx) and n not in node.attrib:
+                v = self.valid_value(decl, a)
+                if v is not None:
+                    node.set(n, v)
         if ctx != "default":
             for n, v in EXTRA_ATTR.get(decl, {}).items():
                 if n in attrs and n not in node.attrib:
@@ -497,7 +700,7 @@ class DocGen:
         M = self.M
         self.enrich = enrich
         root = ET.fromstring(PRELUDE)
-        path = M.kinds[kind]
+        path = M.wrapped[tuple(kind)] if len(kind) == 3 else M.kinds[tuple(kind)]
         node = root
         for decl, ctx, tag in path[1:]:
             ch = self.minimal(decl, ctx, tag)
@@ -511,6 +714,31 @@ class DocGen:
 
 def serialize(root):
     return ET.tostring(root, encoding="unicode")
+
+
+META = ("frame", "replicate")
+
+
+def unwrap_meta(root):
+    """copy of the document with every <frame>/<replicate> below <worldbody> dissolved: its children take its place in the
+    enclosing (world)body.  Counterfactual for 'the schema is not enforced inside frame/replicate'."""
+    import copy
+    r = copy.deepcopy(root)
+    n = 0
+    changed = True
+    while changed:
+        changed = False
+        for wb in r.findall("worldbody"):
+            for parent in list(wb.iter()):
+                for i, ch in enumerate(list(parent)):
+                    if ch.tag in META:
+                        idx = list(parent).index(ch)
+                        parent.remove(ch)
+                        for k, g in enumerate(list(ch)):
+                            parent.insert(idx + k, g)
+                        n += 1
+                        changed = True
+    return r, n
 
 
 def _selftest():
